@@ -115,28 +115,52 @@ pub broadcast axiom fn axiom_value_algebra(f: f64, b: bool)
 #[verifier::external_body] pub exec const VALUE_NIL: Value ensures VALUE_NIL == nil_value() { Value { bits: 1 } }
 #[verifier::external_body] pub exec const VALUE_TRUE: Value ensures VALUE_TRUE == true_value() { Value { bits: 3 } }
 
+// A-std: Option::or is eager in its argument
+pub assume_specification<T> [Option::<T>::or] (a: Option<T>, b: Option<T>) -> (r: Option<T>)
+  ensures r == (if a is Some { a } else { b });
+
 // ---- the fiber's operand stack (A-fiber): the real Fiber keeps a raw stack_top pointer into a Vec; its
 // push/pop/peek/peek_set/drop/drop_n are modelled as a Vec, with the depth precondition the real code leaves unchecked
-pub struct Fiber { pub stack: Vec<Value> }
+#[derive(Clone, Copy, PartialEq, Eq, Structural)]
+pub enum FState { Running, Pending, Blocked }
+
+#[verifier::external_body]
+#[derive(Clone, Copy)]
+pub struct WaiterRef { p: usize }     // Ref<ChannelWaiter>
+
+pub struct Fiber {
+  pub stack: Vec<Value>,
+  /// FiberState of the real fiber (Running / Pending = asleep and runnable / Blocked = must be woken by a partner)
+  pub state: FState,
+  /// this fiber's own waiter object
+  pub me: WaiterRef,
+  /// ghost: the waiters `get_runnable` would hand out next (parked on channels this fiber has used), in order
+  pub pool: Ghost<Seq<WaiterRef>>,
+  /// ghost: channels recorded as used by this fiber
+  pub used: Ghost<Set<ChanRef>>,
+}
+
+/// frame of the stack operations: nothing but the operand stack changes
+pub open spec fn only_stack(o: &Fiber, n: &Fiber) -> bool { n.state == o.state && n.me == o.me && n.pool == o.pool && n.used == o.used }
 
 impl Fiber {
   pub fn push(&mut self, value: Value)
-    ensures final(self).stack@ == old(self).stack@.push(value)
+    ensures final(self).stack@ == old(self).stack@.push(value), only_stack(old(self), final(self))
   { self.stack.push(value) }
 
   pub fn pop(&mut self) -> (r: Value)
     requires old(self).stack@.len() > 0
-    ensures r == old(self).stack@.last(), final(self).stack@ == old(self).stack@.drop_last()
+    ensures r == old(self).stack@.last(), final(self).stack@ == old(self).stack@.drop_last(), only_stack(old(self), final(self))
   { self.stack.pop().unwrap() }
 
   pub fn drop(&mut self)
     requires old(self).stack@.len() > 0
-    ensures final(self).stack@ == old(self).stack@.drop_last()
+    ensures final(self).stack@ == old(self).stack@.drop_last(), only_stack(old(self), final(self))
   { let _ = self.stack.pop(); }
 
   pub fn drop_n(&mut self, count: usize)
     requires old(self).stack@.len() >= count
-    ensures final(self).stack@ == old(self).stack@.subrange(0, old(self).stack@.len() - count)
+    ensures final(self).stack@ == old(self).stack@.subrange(0, old(self).stack@.len() - count), only_stack(old(self), final(self))
   { let n = self.stack.len() - count; self.stack.truncate(n); }
 
   pub fn peek(&self, distance: usize) -> (r: Value)
@@ -144,11 +168,75 @@ impl Fiber {
     ensures r == self.stack@[self.stack@.len() - 1 - distance]
   { self.stack[self.stack.len() - 1 - distance] }
 
+  pub fn waiter(&self) -> (r: WaiterRef) ensures r == self.me { self.me }
+
+  /// real: asserts Running, state = Pending, own waiter becomes runnable
+  pub fn sleep(&mut self)
+    requires old(self).state == FState::Running
+    ensures final(self).state == FState::Pending, final(self).stack == old(self).stack, final(self).me == old(self).me, final(self).pool == old(self).pool, final(self).used == old(self).used
+  { self.state = FState::Pending; }
+
+  /// real: asserts Running, state = Blocked (not runnable until a channel partner unblocks it)
+  pub fn block(&mut self)
+    requires old(self).state == FState::Running
+    ensures final(self).state == FState::Blocked, final(self).stack == old(self).stack, final(self).me == old(self).me, final(self).pool == old(self).pool, final(self).used == old(self).used
+  { self.state = FState::Blocked; }
+
+  /// real: scans the used channels and takes (removes) the first runnable waiter parked on one of them
+  #[verifier::external_body]
+  pub fn get_runnable(&mut self) -> (r: Option<WaiterRef>)
+    ensures
+      old(self).pool@.len() == 0 ==> r is None && final(self).pool@ == old(self).pool@,
+      old(self).pool@.len() > 0 ==> r == Some(old(self).pool@[0]) && final(self).pool@ == old(self).pool@.subrange(1, old(self).pool@.len() as int),
+      final(self).stack == old(self).stack, final(self).state == old(self).state, final(self).me == old(self).me, final(self).used == old(self).used,
+  { None }
+
+  /// R9: `let mut fiber = self.fiber; fiber.add_used_channel(self.gc.borrow_mut(), self, channel)` (allocator and root context dropped)
+  #[verifier::external_body]
+  pub fn add_used_channel(&mut self, channel: ChanRef)
+    ensures final(self).used@ == old(self).used@.insert(channel),
+      final(self).stack == old(self).stack, final(self).state == old(self).state, final(self).me == old(self).me, final(self).pool == old(self).pool,
+  { }
+
   pub fn peek_set(&mut self, distance: usize, value: Value)
     requires distance < old(self).stack@.len()
-    ensures final(self).stack@ == old(self).stack@.update(old(self).stack@.len() - 1 - distance, value)
+    ensures final(self).stack@ == old(self).stack@.update(old(self).stack@.len() - 1 - distance, value), only_stack(old(self), final(self))
   { let i = self.stack.len() - 1 - distance; self.stack.set(i, value); }
 }
+
+// ---- channels as the handlers see them: the queue itself is verified in the chanq unit (C07) -------------------
+#[verifier::external_body]
+#[derive(Clone, Copy)]
+pub struct ChanRef { p: usize }       // ObjRef<Channel>
+
+/// the answer the channel gives to this send / receive in the current heap (its contract is chanq's)
+pub uninterp spec fn send_answer(c: ChanRef, w: WaiterRef, v: Value) -> SendResult;
+pub uninterp spec fn receive_answer(c: ChanRef, w: WaiterRef) -> ReceiveResult;
+pub uninterp spec fn from_chan(c: ChanRef) -> Value;
+pub uninterp spec fn o_chan(o: ObjectRef) -> ChanRef;
+
+impl ChanRef {
+  #[verifier::external_body]
+  pub fn send(&mut self, waiter: WaiterRef, val: Value) -> (r: SendResult)
+    ensures r == send_answer(*old(self), waiter, val), *final(self) == *old(self)
+  { SendResult::Ok }
+  #[verifier::external_body]
+  pub fn receive(&mut self, waiter: WaiterRef) -> (r: ReceiveResult)
+    ensures r == receive_answer(*old(self), waiter), *final(self) == *old(self)
+  { ReceiveResult::Closed }
+}
+impl ObjectRef {
+  #[verifier::external_body] pub fn to_channel(&self) -> (r: ChanRef) requires o_kind(*self) == ObjectKind::Channel ensures r == o_chan(*self) { ChanRef { p: 0 } }
+}
+impl IntoValue for ChanRef {
+  open spec fn into_value_spec(self) -> Value { from_chan(self) }
+  #[verifier::external_body] fn into_value(self) -> (r: Value) { Value { bits: 0 } }
+}
+/// a channel value is the boxing of its channel reference (object identity)
+pub broadcast axiom fn axiom_chan_value(v: Value)
+  requires v_is_obj(v), o_kind(v_obj(v)) == ObjectKind::Channel,
+  ensures #[trigger] from_chan(o_chan(v_obj(v))) == v,
+;
 
 // ---- the interpreter (projection of laythe_vm::vm::Vm to what the covered handlers touch) ------------------------
 #[verifier::external_body]
@@ -167,6 +255,8 @@ pub struct Vm {
   pub raised: Ghost<Option<ClassRef>>,
   /// ghost: the constants table of the current function
   pub constants: Ghost<Seq<Value>>,
+  /// ghost: waiters handed to the scheduler's run queue by this handler execution, in order
+  pub queued: Ghost<Seq<WaiterRef>>,
 }
 
 pub uninterp spec fn code_u8(ip: int) -> u8;
@@ -176,19 +266,19 @@ impl Vm {
   #[verifier::external_body]
   pub fn read_byte(&mut self) -> (r: u8)
     ensures r == code_u8(old(self).ip@), final(self).ip@ == old(self).ip@ + 1,
-            final(self).fiber == old(self).fiber, final(self).raised == old(self).raised, final(self).constants == old(self).constants, final(self).builtin == old(self).builtin
+            final(self).fiber == old(self).fiber, final(self).raised == old(self).raised, final(self).constants == old(self).constants, final(self).builtin == old(self).builtin, final(self).queued == old(self).queued
   { 0 }
 
   #[verifier::external_body]
   pub fn read_short(&mut self) -> (r: u16)
     ensures r == code_u16(old(self).ip@), final(self).ip@ == old(self).ip@ + 2,
-            final(self).fiber == old(self).fiber, final(self).raised == old(self).raised, final(self).constants == old(self).constants, final(self).builtin == old(self).builtin
+            final(self).fiber == old(self).fiber, final(self).raised == old(self).raised, final(self).constants == old(self).constants, final(self).builtin == old(self).builtin, final(self).queued == old(self).queued
   { 0 }
 
   #[verifier::external_body]
   pub fn update_ip(&mut self, offset: isize)
     ensures final(self).ip@ == old(self).ip@ + offset,
-            final(self).fiber == old(self).fiber, final(self).raised == old(self).raised, final(self).constants == old(self).constants, final(self).builtin == old(self).builtin
+            final(self).fiber == old(self).fiber, final(self).raised == old(self).raised, final(self).constants == old(self).constants, final(self).builtin == old(self).builtin, final(self).queued == old(self).queued
   { }
 
   /// real: get_constant_unchecked — the index is trusted (C06 O-06.9, not decided)
@@ -202,21 +292,92 @@ impl Vm {
   #[verifier::external_body]
   pub fn runtime_error_from_str(&mut self, error: ClassRef, message: &str) -> (r: ExecutionSignal)
     ensures r == ExecutionSignal::RuntimeError, final(self).raised@ == Some(error), final(self).ip == old(self).ip,
-            final(self).constants == old(self).constants, final(self).builtin == old(self).builtin
+            final(self).fiber.used == old(self).fiber.used, final(self).fiber.pool == old(self).fiber.pool,
+            final(self).constants == old(self).constants, final(self).builtin == old(self).builtin, final(self).queued == old(self).queued
   { ExecutionSignal::RuntimeError }
 
   /// interning allocation of a string buffer
   #[verifier::external_body]
   pub fn manage_str(&mut self, buffer: StrBuf) -> (r: LyStr)
     ensures r == buffer.content(), final(self).fiber == old(self).fiber, final(self).ip == old(self).ip, final(self).raised == old(self).raised,
-            final(self).constants == old(self).constants, final(self).builtin == old(self).builtin
+            final(self).constants == old(self).constants, final(self).builtin == old(self).builtin, final(self).queued == old(self).queued
   { LyStr { p: 0 } }
+
+  /// real: unblocks the waiter's fiber and appends it to the run queue
+  #[verifier::external_body]
+  pub fn queue_blocked_fiber(&mut self, waiter: WaiterRef)
+    ensures final(self).queued@ == old(self).queued@.push(waiter), final(self).fiber == old(self).fiber, final(self).ip == old(self).ip, final(self).raised == old(self).raised,
+            final(self).constants == old(self).constants, final(self).builtin == old(self).builtin
+  { }
 
   /// C16: an internal error is a host panic; the handlers must never reach it
   #[verifier::external_body]
   pub fn internal_error(&self, message: &str) -> (r: ExecutionSignal)
     requires false
   { ExecutionSignal::Exit }
+}
+
+// R12: if_let_obj! / to_obj_kind! copied from laythe_core/src/macros.rs with the `$crate::` prefixes and `use` lines removed
+macro_rules! to_obj_kind {
+  ($o:expr, Channel) => {
+    $o.to_channel()
+  };
+  ($o:expr, Class) => {
+    $o.to_class()
+  };
+  ($o:expr, Instance) => {
+    $o.to_instance()
+  };
+  ($o:expr, String) => {
+    $o.to_str()
+  };
+}
+
+macro_rules! if_let_obj {
+  (ObjectKind::$obj_kind:ident($p:pat) = ($v:expr) $b:block) => {{
+    let val: Value = $v;
+    if val.is_obj() {
+      let obj = val.to_obj();
+
+      if obj.is_kind(ObjectKind::$obj_kind) {
+        let $p = to_obj_kind!(obj, $obj_kind);
+        $b
+      }
+    }
+  }};
+  (ObjectKind::$obj_kind:ident(mut $p:pat) = ($v:expr) $b:block) => {{
+    let val: Value = $v;
+    if val.is_obj() {
+      let obj = val.to_obj();
+
+      if obj.is_kind(ObjectKind::$obj_kind) {
+        let mut $p = to_obj_kind!(obj, $obj_kind);
+        $b
+      }
+    }
+  }};
+  (ObjectKind::$obj_kind:ident($p:pat) = ($v:expr) $b1:block else $b2:block) => {{
+    let val: Value = $v;
+    if val.is_obj() {
+      let obj = val.to_obj();
+
+      if obj.is_kind(ObjectKind::$obj_kind) {
+        let $p = to_obj_kind!(obj, $obj_kind);
+        $b1
+      } else $b2
+    } else $b2
+  }};
+  (ObjectKind::$obj_kind:ident(mut $p:pat) = ($v:expr) $b1:block else $b2:block) => {{
+    let val: Value = $v;
+    if val.is_obj() {
+      let obj = val.to_obj();
+
+      if obj.is_kind(ObjectKind::$obj_kind) {
+        let mut $p = to_obj_kind!(obj, $obj_kind);
+        $b1
+      } else $b2
+    } else $b2
+  }};
 }
 
 macro_rules! val {
